@@ -197,7 +197,8 @@ class MafSorterCodec(SorterCodec):
 
     def encode(self, record: MafRecord) -> bytearray:
         """Encodes a MafRecord"""
-        if not self._column_names:
+        if not self._column_names and self._scheme is None:
+            # only without a scheme are the names those of the first record;
             # a copy: the caller may go on editing the record it handed over
             self._column_names = list(record.keys())
         return bytearray(source=str(record), encoding='utf-8')  # type: ignore
